@@ -120,25 +120,32 @@ Qed.
 (** * The generic tactic: peel binds, destruct scrutinees, close leaves *)
 
 Ltac obl_leaf :=
-  first
-    [ apply rel2_ret; reflexivity
-    | apply rel2_fail
-    | apply rel2_unsup
-    | apply rel2_raise
-    | apply rel2_fuel
-    | apply obl_get_cell | apply obl_set_cell | apply obl_new_cell
-    | apply obl_get_table | apply obl_set_table | apply obl_new_table
-    | apply obl_emit_event | apply obl_pop_oracle | apply obl_next_fresh ].
+  lazymatch goal with
+  | |- rel2 _ (ret _) (ret _) => apply rel2_ret; reflexivity
+  | |- rel2 _ (fail _) (fail _) => apply rel2_fail
+  | |- rel2 _ (unsup _) (unsup _) => apply rel2_unsup
+  | |- rel2 _ (raise _) (raise _) => apply rel2_raise
+  | |- rel2 _ (num_result _) (num_result _) => apply rel2_ret; reflexivity
+  | |- rel2 _ (fun _ => Fuel) (fun _ => Fuel) => apply rel2_fuel
+  | |- rel2 _ (get_cell _) (get_cell _) => apply obl_get_cell
+  | |- rel2 _ (set_cell _ _) (set_cell _ _) => apply obl_set_cell
+  | |- rel2 _ (new_cell _) (new_cell _) => apply obl_new_cell
+  | |- rel2 _ (get_table _) (get_table _) => apply obl_get_table
+  | |- rel2 _ (set_table _ _) (set_table _ _) => apply obl_set_table
+  | |- rel2 _ (new_table _) (new_table _) => apply obl_new_table
+  | |- rel2 _ (emit_event _) (emit_event _) => apply obl_emit_event
+  | |- rel2 _ pop_oracle pop_oracle => apply obl_pop_oracle
+  | |- rel2 _ next_fresh next_fresh => apply obl_next_fresh
+  end.
 
 Ltac obl_step tac :=
-  match goal with
+  lazymatch goal with
   | |- oblivious _ => unfold oblivious
-  | |- rel2 _ _ _ => obl_leaf
-  | |- rel2 _ _ _ => solve [tac]
   | |- rel2 _ (bind _ _) (bind _ _) => apply rel2_bind_eq; [|intros ?]
   | |- rel2 _ (pcall_wrap _) (pcall_wrap _) => apply rel2_pcall
   | |- rel2 _ (let x := _ in _) _ => cbv zeta
   | |- rel2 _ (match ?x with _ => _ end) (match ?x with _ => _ end) => destruct x
+  | |- rel2 _ _ _ => first [obl_leaf | solve [tac]]
   end.
 
 Ltac obl_with tac := repeat (obl_step tac).
@@ -330,9 +337,21 @@ Ltac cov_unfold :=
   unfold covers_expr, covers_block, covers_stmt, covers_args, covers_tentry, covers_ebranch,
     covers_sbranch, covers_iseg, covers_fbody in *.
 
+Ltac orb_find Hx :=
+  first [ exact Hx
+        | apply is_target_self
+        | apply orb_true_intro; first [ left; orb_find Hx | right; orb_find Hx ] ].
+
+Ltac cov_hyp Hx :=
+  lazymatch type of Hx with
+  | (_ || _)%bool = true => apply orb_prop in Hx; destruct Hx as [Hx|Hx]; cov_hyp Hx
+  | _ => orb_find Hx
+  end.
+
 Ltac cov_close Hx :=
-  autorewrite with ment; cbn [existsb optb];
-  rewrite ?Hx, ?is_target_self; rewrite ?orb_true_r, ?orb_true_l; reflexivity.
+  autorewrite with ment; cbn [existsb optb]; autorewrite with ment;
+  autorewrite with ment in Hx; cbn [existsb optb] in Hx; autorewrite with ment in Hx;
+  cov_hyp Hx.
 
 Ltac cov :=
   cov_unfold;
@@ -351,3 +370,8 @@ Proof.
   repeat split; auto. destruct f as [ps v vt rt g at_ body]. intros x Hx. right. apply H.
   rewrite ment_fbody_eq, Hx. reflexivity.
 Qed.
+
+Ltac finv :=
+  repeat match goal with
+         | H : Forall _ (_ :: _) |- _ => inversion H; clear H; subst
+         end.
